@@ -74,6 +74,52 @@ Fixpoint zlist_eqb (a b : list Z) : bool :=
   | _, _ => false
   end.
 
+
+(* C03 fixes the accumulated distance as a sum of reals, not the order or rounding of its
+   float64 accumulation: a database that differs from the model's only in the last bits of the
+   distances (1e-9 relative + 1 um; the lap's overall distance, printed to 0.1 m, by at most that
+   step) still meets the property - the correspondence differs (S). *)
+Definition fabs (a : f64) : f64 := if flt a fzero then fneg a else a.
+Definition close_dist (a b : f64) : bool :=
+  (a =? b) || fle (fabs (fsub a b)) (fadd (f_of_ratio 1 1000000) (fmul (f_of_ratio 1 1000000000) (fabs a))).
+Definition close_overall (a b : f64) : bool := (a =? b) || fle (fabs (fsub a b)) (f_of_ratio 1001 10000).
+Definition nodist_fix (f : lfix) : lfix :=
+  mkFix (f_id f) (f_date f) (f_lat f) (f_lon f) (f_alt f) (f_speed f) (f_diff f) (f_posfix f) (f_interp f) (f_sats f)
+        (f_dir f) (f_hdop f) (f_acc f) 0 (f_offset f) (f_accel f) (f_obd f).
+Definition nodist_lap (l : llap) : llap :=
+  mkLLap (l_id l) (l_date l) (l_time l) (l_vehicle l) (l_track l) (l_tags l) (l_note l) (l_rectype l) 0 (map nodist_fix (l_fixes l)).
+Definition dists_close (a b : list llap) : bool :=
+  Nat.eqb (length a) (length b) &&
+  forallb (fun '(x, y) => close_overall (l_overall x) (l_overall y) &&
+                          Nat.eqb (length (l_fixes x)) (length (l_fixes y)) &&
+                          forallb (fun '(f, g) => close_dist (f_dist f) (f_dist g)) (combine (l_fixes x) (l_fixes y)))
+          (combine a b).
+
+
+(* C11 speaks about rows "between two fresh OBD readings" and about rows with fresh readings.
+   What a stale row before the first or after the last fresh reading receives (an
+   extrapolation) is not fixed: a database that differs from the model's only in the OBD
+   channels of such fixes still meets the property (S). *)
+Definition is_fresh (r : record) : bool := match r_obd r with Some o => o_update o | None => false end.
+Definition fresh_times (laps : list lap) : list Z :=
+  flat_map (fun l => flat_map (fun r => if is_fresh r then [r_time r] else []) (lap_recs l)) laps.
+Definition fix_rows (l : lap) : list record :=
+  match lap_recs l with [] => [] | r0 :: rest => r0 :: filter (fun r => g_update (r_gps r)) rest end.
+Definition constrained (ft : list Z) (r : record) : bool :=
+  match ft with
+  | t0 :: _ :: _ => is_fresh r || ((t0 <? r_time r) && (r_time r <? last ft t0))
+  | _ => true
+  end.
+Definition obd_close (laps : list lap) (m i : list llap) : bool :=
+  let ft := fresh_times laps in
+  let rows := map fix_rows (middle laps) in
+  Nat.eqb (length m) (length i) && Nat.eqb (length m) (length rows) &&
+  forallb (fun '((a, b), rs) =>
+             Nat.eqb (length (l_fixes a)) (length (l_fixes b)) && Nat.eqb (length (l_fixes a)) (length rs) &&
+             forallb (fun '((f, g), r) => negb (constrained ft r) || zlist_eqb (tok_obd (f_obd f)) (tok_obd (f_obd g)))
+                     (combine (combine (l_fixes a) (l_fixes b)) rs))
+          (combine (combine m i) rows).
+
 Definition check (p : proj) (c : case) : verdict :=
   if negb (c_geod_sane c) then (if c_sincos45 c then VK else VV) else
   let m := (if Nat.leb 2 (co_predict (c_opts c)) then convert_with (oracle_pred (c_table c)) else convert)
@@ -85,5 +131,11 @@ Definition check (p : proj) (c : case) : verdict :=
       if prefix_b "gonum" e then (if Nat.eqb cls 2 then VO else VS) else VK
   | OutOfFuel, _ => VK
   | Ok db, cls =>
-      if Nat.eqb cls 0 then (if zlist_eqb (tok_db p db) (tok_db p (c_db c)) then VA else VV) else VV
+      if Nat.eqb cls 0 then
+        (if zlist_eqb (tok_db p db) (tok_db p (c_db c)) then VA
+         else if p_all p && zlist_eqb (tok_db p (map nodist_lap db)) (tok_db p (map nodist_lap (c_db c))) && dists_close db (c_db c)
+              then VS
+         else if p_obd p && negb (p_all p) && obd_close (c_laps c) db (c_db c) then VS
+         else VV)
+      else VV
   end.
